@@ -203,7 +203,10 @@ class AxolotlSendLayer(AxolotlBaseLayer):
             if len(errors):
                 self.on_get_keys_process_errors(errors)
 
-            self.sendToGroupWithSessions(node, success_jids)
+            # every participant we have a session with gets the sender key: those we already had one with as
+            # well as those whose keys were just fetched (a participant whose keys were refused must not keep
+            # the others from getting the message)
+            self.sendToGroupWithSessions(node, [jid for jid in jids if jid not in jidsNoSession or jid in success_jids])
 
         if len(jidsNoSession):
             self.getKeysFor(jidsNoSession, lambda successJids, errors: on_get_keys_success(node, successJids, errors))
